@@ -1240,12 +1240,23 @@ JANET_CORE_FN(cfun_channel_choice,
         if (janet_indexed_view(argv[i], &data, &len) && len == 2) {
             /* Write */
             JanetChannel *chan = janet_channel_unwrap(janet_unwrap_abstract(data[0]));
-            janet_channel_push_with_lock(chan, data[1], 1);
+            if (!janet_channel_push_with_lock(chan, data[1], 1)) {
+                /* The value went straight to a waiting reader, so this clause has completed and
+                 * nothing will wake us for it. Resume ourselves with its result; being scheduled
+                 * also invalidates the registrations made for the earlier clauses. */
+                chan_unlock_args(argv + i + 1, argc - i - 1);
+                janet_schedule(janet_vm.root_fiber, make_write_result(chan));
+                break;
+            }
         } else {
             /* Read */
             Janet item;
             JanetChannel *chan = janet_channel_unwrap(janet_unwrap_abstract(argv[i]));
-            janet_channel_pop_with_lock(chan, &item, 1);
+            if (janet_channel_pop_with_lock(chan, &item, 1)) {
+                chan_unlock_args(argv + i + 1, argc - i - 1);
+                janet_schedule(janet_vm.root_fiber, make_read_result(chan, item));
+                break;
+            }
         }
     }
 
